@@ -87,6 +87,7 @@ func runC10(w *World, tier string, mode string) (bool, interface{}) {
 	}
 	c := NewCluster(w, n)
 	c.L.Faults.PermuteResults = true
+	c.L.Faults.BoardDownAtSubmit = w.Tape.Bool(1, 2, "boardOutages") // single submissions refused by the board; operators submit again
 	members := AllMembers(n)
 	budget := 3 + w.Tape.Choose(4, "injections")
 	injected, judged := 0, 0
